@@ -622,7 +622,7 @@ pub fn chk_panic(cx: &Ctx) -> Vec<Viol> {
         Some(f) => f,
         None => return vs,
     };
-    let fired = cx.obs.calls.iter().any(|c| c.stage == st && (c.id == id || id == hcore::closures::ANY_ID));
+    let fired = cx.obs.calls.iter().any(|c| c.stage == st && (c.id == id || id == hcore::closures::ANY_ID || id == hcore::closures::ALL_ID));
     if fired && cx.obs.result.is_ok() {
         vs.push(v("panic-swallowed", format!("the stage-{} closure panicked on {:#x} but the terminal returned {:?}", st, id, cx.obs.result)));
     }
